@@ -20,10 +20,16 @@ type pathCase struct {
 
 // bruteBetweenness evaluates the defining sums over all ordered pairs (s,t)
 // from exact distances d and exact path counts sig.
-func bruteBetweenness(m *model, d, sig [][]float64) (node []float64, edge map[[2]int]float64) {
+//
+// nodeAdds / edgeAdds count the shortest paths through each node / edge over
+// all pairs: the weighted routines perform that many floating-point additions
+// into one accumulator, which scales their rounding error.
+func bruteBetweenness(m *model, d, sig [][]float64) (node []float64, edge map[[2]int]float64, nodeAdds []float64, edgeAdds map[[2]int]float64) {
 	n := m.n
 	node = make([]float64, n)
 	edge = map[[2]int]float64{}
+	nodeAdds = make([]float64, n)
+	edgeAdds = map[[2]int]float64{}
 	nodeAcc := make([]vk.DD, n)
 	edgeAcc := map[[2]int]*vk.DD{}
 	for s := 0; s < n; s++ {
@@ -37,6 +43,7 @@ func bruteBetweenness(m *model, d, sig [][]float64) (node []float64, edge map[[2
 				}
 				if d[s][v]+d[v][t] == d[s][t] {
 					nodeAcc[v].Add(sig[s][v] * sig[v][t] / sig[s][t])
+					nodeAdds[v] += sig[s][v] * sig[v][t]
 				}
 			}
 			for u := 0; u < n; u++ {
@@ -53,6 +60,7 @@ func bruteBetweenness(m *model, d, sig [][]float64) (node []float64, edge map[[2
 							edgeAcc[k] = &vk.DD{}
 						}
 						edgeAcc[k].Add(sig[s][u] * sig[v][t] / sig[s][t])
+						edgeAdds[k] += sig[s][u] * sig[v][t]
 					}
 				}
 			}
@@ -64,7 +72,7 @@ func bruteBetweenness(m *model, d, sig [][]float64) (node []float64, edge map[[2
 	for k, a := range edgeAcc {
 		edge[k] = a.Float()
 	}
-	return node, edge
+	return node, edge, nodeAdds, edgeAdds
 }
 
 // enumBetweenness is the literal brute force: enumerate every shortest path
@@ -131,7 +139,13 @@ func relClose(got, want float64) bool {
 	return math.Abs(got-want) <= 1e-12*math.Max(1, math.Abs(want))
 }
 
-func (m *model) cmpNodeMap(name string, got map[int64]float64, want []float64, nonZeroOnly bool) *vk.Failure {
+// addsClose allows the rounding of `adds` successive additions into one
+// accumulator (each at most one ulp of the final value) on top of 1e-12.
+func addsClose(got, want, adds float64) bool {
+	return math.Abs(got-want) <= (1e-12+4*(adds+2)*vk.Eps)*math.Max(1, math.Abs(want))
+}
+
+func (m *model) cmpNodeMap(name string, got map[int64]float64, want, adds []float64, nonZeroOnly bool) *vk.Failure {
 	for id := range got {
 		if _, ok := m.idx[id]; !ok {
 			return vk.Failf(name+"-keys", "result has an entry for ID %d which is not a node", id)
@@ -148,28 +162,30 @@ func (m *model) cmpNodeMap(name string, got map[int64]float64, want []float64, n
 		if !ok {
 			return vk.Failf(name+"-missing", "node index %d (ID %d): no entry, want %v", i, id, want[i])
 		}
-		if !(g == want[i] || relClose(g, want[i])) {
+		if !(g == want[i] || addsClose(g, want[i], adds[i])) {
 			return vk.Failf(name+"-value", "node index %d (ID %d): got %v want %v", i, id, g, want[i])
 		}
 	}
 	return nil
 }
 
-func (m *model) cmpEdgeMap(name string, got map[[2]int64]float64, want map[[2]int]float64) *vk.Failure {
+func (m *model) cmpEdgeMap(name string, got map[[2]int64]float64, want, adds map[[2]int]float64) *vk.Failure {
 	wantID := map[[2]int64]float64{}
+	addsID := map[[2]int64]float64{}
 	for k, v := range want {
 		a, b := m.ids[k[0]], m.ids[k[1]]
 		if !m.directed && a > b { // documented: u.ID < v.ID for undirected graphs
 			a, b = b, a
 		}
 		wantID[[2]int64{a, b}] = v
+		addsID[[2]int64{a, b}] = adds[k]
 	}
 	for k, g := range got {
 		w, ok := wantID[k]
 		if !ok {
 			return vk.Failf(name+"-keys", "entry %v=%v: not an edge lying on a shortest path (or wrong key orientation)", k, g)
 		}
-		if !relClose(g, w) {
+		if !addsClose(g, w, addsID[k]) {
 			return vk.Failf(name+"-value", "edge %v: got %v want %v", k, g, w)
 		}
 	}
@@ -187,11 +203,12 @@ func checkPaths(c pathCase) *vk.Failure {
 	vk.Sample("paths", c)
 	d := m.allDist()
 	sig := m.sigma(d)
-	var maxSig float64
+	var maxSig, totSig float64
 	multi := false
 	for s := 0; s < n; s++ {
 		for t := 0; t < n; t++ {
 			maxSig = math.Max(maxSig, sig[s][t])
+			totSig += sig[s][t]
 			if s != t && sig[s][t] >= 2 {
 				multi = true
 			}
@@ -212,7 +229,7 @@ func checkPaths(c pathCase) *vk.Failure {
 	if n >= 4 && (multi || m.hasDanglingOrIsolated()) {
 		vk.NonTrivial("paths", m.hash())
 	}
-	wantNode, wantEdge := bruteBetweenness(m, d, sig)
+	wantNode, wantEdge, nodeAdds, edgeAdds := bruteBetweenness(m, d, sig)
 	if n <= 7 {
 		// literal enumeration of all shortest paths cross-checks the counting formula
 		en, ee, es := enumBetweenness(m, d)
@@ -251,7 +268,7 @@ func checkPaths(c pathCase) *vk.Failure {
 		return vk.Failf("floyd-warshall-ok", "FloydWarshall reports a negative cycle on positive weights")
 	}
 	// path enumeration by AllBetween is exponential in the number of tied paths
-	enumerable := maxSig <= 3000
+	enumerable := totSig <= 300000
 	for k, p := range []path.AllShortest{dij, fw} {
 		src := []string{"dijkstra", "floydwarshall"}[k]
 		for s := 0; s < n; s++ {
@@ -277,10 +294,10 @@ func checkPaths(c pathCase) *vk.Failure {
 		if f := vk.MustReturn("edge-betweenness-weighted-panics", func() { eb = network.EdgeBetweennessWeighted(wgw, p) }); f != nil {
 			return f
 		}
-		if f := m.cmpNodeMap("betweenness-weighted-"+src, nb, wantNode, true); f != nil {
+		if f := m.cmpNodeMap("betweenness-weighted-"+src, nb, wantNode, nodeAdds, true); f != nil {
 			return f
 		}
-		if f := m.cmpEdgeMap("edge-betweenness-weighted-"+src, eb, wantEdge); f != nil {
+		if f := m.cmpEdgeMap("edge-betweenness-weighted-"+src, eb, wantEdge, edgeAdds); f != nil {
 			return f
 		}
 	}
@@ -293,7 +310,7 @@ func checkPaths(c pathCase) *vk.Failure {
 		um = m.unitModel()
 		ud = um.allDist()
 		usig = um.sigma(ud)
-		uNode, uEdge = bruteBetweenness(um, ud, usig)
+		uNode, uEdge, _, _ = bruteBetweenness(um, ud, usig)
 	}
 	ug := um.buildUnweighted()
 	var nb map[int64]float64
@@ -304,10 +321,10 @@ func checkPaths(c pathCase) *vk.Failure {
 	if f := vk.MustReturn("edge-betweenness-panics", func() { eb = network.EdgeBetweenness(ug) }); f != nil {
 		return f
 	}
-	if f := um.cmpNodeMap("betweenness", nb, uNode, true); f != nil {
+	if f := um.cmpNodeMap("betweenness", nb, uNode, make([]float64, um.n), true); f != nil {
 		return f
 	}
-	if f := um.cmpEdgeMap("edge-betweenness", eb, uEdge); f != nil {
+	if f := um.cmpEdgeMap("edge-betweenness", eb, uEdge, map[[2]int]float64{}); f != nil {
 		return f
 	}
 	// distance measures on the unweighted container (uniform cost)
